@@ -290,7 +290,37 @@ def r6(tree, rep):
               what="a refused offer (answer 'n', too little space) already created / truncated <destination>.tmp")
 
 
+def r7(tree, rep):
+    """the sender's directory offer: the tree is walked completely - empty directories included - and every walked path is added
+    under its path relative to the directory sent, itself only (no second recursion)"""
+    bo = tree.func(TX, "Sender", "_build_offer")
+    walks = [n for n in ast.walk(bo) if isinstance(n, ast.For) and isinstance(n.iter, ast.Call) and (dotted(n.iter.func) or "").split(".")[-1] == "walk"]
+    if len(walks) != 1:
+        raise AnalysisError("Sender._build_offer: cannot find the directory walk (for .. in walk(..))")
+    lp = walks[0]
+    w = lp.iter
+    pe = call_arg(w, kw="preserve_empty")
+    rep.check("C04.R7", "the directory walk keeps empty directories (walk(.., preserve_empty=True))", pe is not None and const(pe) is True, site(w, TX),
+              key="C04.R7:walk:preserve-empty",
+              what="empty directories are left out of the zip stream: both sides report success on a receiver tree that is not what the sender read")
+    root = w.args[0] if w.args else None
+    adds = [c for b in lp.body for c in ast.walk(b) if isinstance(c, ast.Call) and isinstance(c.func, ast.Attribute) and c.func.attr == "add_path"]
+    ok = len(adds) == 1 and isinstance(lp.target, ast.Name)
+    if ok:
+        a = adds[0]
+        arc = call_arg(a, 1, "arcname")
+        rec = call_arg(a, kw="recurse")
+        ok = bool(a.args) and isinstance(a.args[0], ast.Name) and a.args[0].id == lp.target.id \
+            and isinstance(arc, ast.Call) and dotted(arc.func) == "os.path.relpath" and len(arc.args) == 2 \
+            and isinstance(arc.args[0], ast.Name) and arc.args[0].id == lp.target.id and root is not None and same_expr(arc.args[1], root) \
+            and rec is not None and const(rec) is False
+    rep.check("C04.R7", "every walked path is added once, under its path relative to the directory sent (add_path(p, arcname=relpath(p, root), recurse=False))",
+              ok, site(lp, TX), key="C04.R7:walk:add_path",
+              what="the zip stream does not contain each walked path exactly once under its relative name")
+
+
 def run(tree, rep, tier):
+    r7(tree, rep)
     r1_r3(tree, rep)
     r2(tree, rep)
     r4(tree, rep)
